@@ -218,7 +218,7 @@ theorem Static.Valid.fuel_level {S : Static} (hS : S.Valid) {rk : Comp → Comp 
         have hmem : a'' ∈ us := (Wiring.mem_ups_iff' hwf hus a'').2 ⟨p'', p, hconn⟩
         have hr := hrk L hL a us a'' hus hmem
         refine ((ih a'' ha'' (by omega)).1 p'').mono ?_
-        have := lsum_below_add_le_below ha'' (rk L.name) hr S.wt
+        have : below a'' + S.wt a'' ≤ below a := lsum_below_add_le_below ha'' (rk L.name) hr S.wt
         rw [hcost]
         show b + (below a'' + S.wt a'') ≤ b + below a
         omega
